@@ -97,6 +97,7 @@ func subsets(n int) [][]int {
 func main() {
 	flag.Parse()
 	r := ev.Start("C19")
+	defer r.RecoverMain()
 	defer world.Cleanup()
 	r.Assume("little-endian host (integer keys compared as native unsigned integers)",
 		"decisions enumerated exhaustively per key for <=4-key universes, by 9 decision patterns (all-keep/replace/delete and 6 rotations) for the larger ones")
